@@ -154,30 +154,33 @@ Section Field.
   Definition set_range (start : nat) (vs : list Z) (st : list Z) : list Z :=
     fold_left (fun st iv => upd (start + fst iv) (fun _ => snd iv) st) (combine (seq 0 (length vs)) vs) st.
 
-  Definition merge_cnt (S : Sponge) (a b : list Z) : list Z :=
+  (* the state handed to the permutation by merge / merge_with_int (what is absorbed, before any mixing) *)
+  Definition merge_state_cnt (S : Sponge) (a b : list Z) : list Z :=
     let st := set_range (sp_rate_start S) (a ++ b) (zeros (sp_width S)) in
-    let st := upd (sp_cap_idx S) (fun _ => 8 mod p) st in
-    digest_of S (sp_perm S st).
+    upd (sp_cap_idx S) (fun _ => 8 mod p) st.
+  Definition merge_cnt (S : Sponge) (a b : list Z) : list Z := digest_of S (sp_perm S (merge_state_cnt S a b)).
 
   (* value: u64.  state[in2] = new(value); if value < MODULUS { cap = 5 } else { state[in2 + 1] = new(value / MODULUS); cap = 6 } *)
-  Definition merge_with_int_cnt (S : Sponge) (seed : list Z) (v : Z) : list Z :=
+  Definition mwi_state_cnt (S : Sponge) (seed : list Z) (v : Z) : list Z :=
     let st := set_range (sp_rate_start S) seed (zeros (sp_width S)) in
     let st := upd (sp_rate_start S + 4) (fun _ => v mod p) st in
-    let st := if v <? p then upd (sp_cap_idx S) (fun _ => 5 mod p) st
-              else upd (sp_cap_idx S) (fun _ => 6 mod p) (upd (sp_rate_start S + 5) (fun _ => (v / p) mod p) st) in
-    digest_of S (sp_perm S st).
+    if v <? p then upd (sp_cap_idx S) (fun _ => 5 mod p) st
+    else upd (sp_cap_idx S) (fun _ => 6 mod p) (upd (sp_rate_start S + 5) (fun _ => (v / p) mod p) st).
+  Definition merge_with_int_cnt (S : Sponge) (seed : list Z) (v : Z) : list Z :=
+    digest_of S (sp_perm S (mwi_state_cnt S seed v)).
 
   (* ---- RpJive64_256: Jive compression (not a sponge) *)
   Definition jive_sum (init final : list Z) : list Z :=
     map (fun i => fadd (fadd (fadd (nth i init 0) (nth (4 + i) init 0)) (nth i final 0)) (nth (4 + i) final 0)) (seq 0 4).
   Definition merge_jive (perm : list Z -> list Z) (a b : list Z) : list Z :=
     let init := a ++ b in jive_sum init (perm init).
-  Definition merge_with_int_jive (perm : list Z -> list Z) (seed : list Z) (v : Z) : list Z :=
+  Definition mwi_state_jive (seed : list Z) (v : Z) : list Z :=
     let st := set_range 0 seed (zeros 8) in
     let st := upd 4 (fun _ => v mod p) st in
-    let st := if v <? p then upd 7 (fun _ => 5 mod p) st
-              else upd 7 (fun _ => 6 mod p) (upd 5 (fun _ => (v / p) mod p) st) in
-    jive_sum st (perm st).
+    if v <? p then upd 7 (fun _ => 5 mod p) st
+    else upd 7 (fun _ => 6 mod p) (upd 5 (fun _ => (v / p) mod p) st).
+  Definition merge_with_int_jive (perm : list Z -> list Z) (seed : list Z) (v : Z) : list Z :=
+    let st := mwi_state_jive seed v in jive_sum st (perm st).
 End Field.
 
 (* ------------------------------------------------------------------------------------------------ instances *)
